@@ -170,6 +170,29 @@ func c19Subjects() []c19Subject {
 			}
 			return a
 		}, func(o any) string { return deepdump.Dump(o) }, descOps},
+		// a descriptor as decoded from a file whose timestamp field is all zero, under a clock that
+		// advances with every reading: a read-only operation that consults the clock (to "fill in" a
+		// missing time, say) gives another result on every call
+		{"authentication descriptor decoded with an all-zero timestamp, advancing clock", func() any {
+			vtime.Set(time.Date(2024, 5, 6, 7, 8, 9, 0, time.UTC))
+			db, _ := signature.ReadSignatureDatabase(bytes.NewReader(dbBytes))
+			a, _, err := signature.SignEFIVariable(efivar.Db, &db, keys.K(1), keys.C(1))
+			if err != nil {
+				panic(err)
+			}
+			var b bytes.Buffer
+			a.Marshal(&b)
+			enc := b.Bytes()
+			for i := 0; i < 16; i++ {
+				enc[i] = 0
+			}
+			d, err := signature.ReadEFIVariableAuthencation2(bytes.NewReader(enc))
+			if err != nil {
+				panic(err)
+			}
+			vtime.SetStepping(time.Date(2024, 5, 6, 7, 8, 9, 0, time.UTC), time.Second)
+			return d
+		}, func(o any) string { return deepdump.Dump(o) }, descOps},
 		{"signed image", func() any {
 			p, err := authenticode.Parse(bytes.NewReader(c19Signed))
 			if err != nil {
